@@ -95,8 +95,20 @@ func c17Case(ip net.IP, id krpc.ID, flips bool) explore.Case {
 	return explore.Case{Prop: "C17", Unit: "pair", H: []string{"ip=" + hex.EncodeToString(ip), "id=" + hex.EncodeToString(id[:]), "flips=" + strconv.FormatBool(flips)}}
 }
 
+// sync-level tier (schedule explorer), present only in overlay builds (build tag verife2)
+var (
+	c17SyncTier   func(t *testing.T, w *explore.Worker, idx *int)
+	c17SyncReplay func(t *testing.T, c explore.Case) explore.Result
+)
+
 func init() {
 	runners["C17"] = func(t *testing.T, c explore.Case) (r explore.Result) {
+		if strings.HasPrefix(c.Unit, "sync;") {
+			if c17SyncReplay == nil {
+				return explore.Result{Viol: "HARNESS: sync tier not built"}
+			}
+			return c17SyncReplay(t, c)
+		}
 		switch c.Unit {
 		case "pair":
 			var ip net.IP
@@ -424,5 +436,8 @@ func TestC17(t *testing.T) {
 				}
 			}
 		}
+	}
+	if c17SyncTier != nil {
+		c17SyncTier(t, w, &idx)
 	}
 }
